@@ -43,7 +43,14 @@ out += ["", "### 12.3 Behaviour-preserving refactorings (`selftest/benign/`, run
         "a record index behind get_record, a candidate index behind add_record / chain, a lazily built trie, a bisect-based "
         "longest-prefix index replacing the trie on the query path, linear duplicate scans, per-call memoisation of distinct "
         "data-frame cells, streamed file rewrites, a prefix index in the mapping service, a non-strict constructor and a "
-        "direct trie lookup inside discover, a fast path in the resolver's re-split. All twenty quick checks are run "
+        "direct trie lookup inside discover, a fast path in the resolver's re-split. Sixth batch (featA..D, the counterpart of the fifteenth round): new features and "
+        "modernisations done right - container and value protocols on Converter (__len__, __iter__, __contains__, __getitem__, "
+        "__eq__ with __hash__ = None, __copy__, pickling without the trie), case_sensitive= on the CURIE-side lookups, "
+        "Record.description carried through every derivation and the extended prefix map, a complete ordering on Reference, "
+        "pydantic model_validator / classmethod validators, target_column= / output_path= / encoding= and file_standardize_* for "
+        "tables, a frozen hashable Triple with sorted / de-duplicated writing, a TSV loader and stream targets for the writers, "
+        "luid_pattern= and discover_uri_prefixes, predicates= / default_content_type= / route= for the mapping service, "
+        "require_prefix= and w3c_validation=. All twenty quick checks are run "
         "against each; any exit code other than 0 is an alarm.", "",
         "| refactoring | repository tests | checks raising an alarm |", "|---|---|---|"]
 for r in bres:
